@@ -727,6 +727,18 @@ void vf_syslog(int prio, const char *fmt, ...) {
 	va_end(ap);
 	/* the log sink is shared; threads hold the baton when they get here, but
 	 * the free-running fallbacks may not: keep it simple and tolerate races */
+	static FILE *lf;
+	static int lf_checked;
+	if (!lf_checked) {
+		lf_checked = 1;
+		const char *p = getenv("VF_LOGFILE");
+		if (p) lf = fopen(p, "a");
+	}
+	if (lf) {
+		fprintf(lf, "%llu.%06llu t%d <%d> %s\n", (unsigned long long) (now_us / 1000000ULL),
+		        (unsigned long long) (now_us % 1000000ULL), my_id, prio & 7, line);
+		fflush(lf);
+	}
 	unsigned long k = log_total++;
 	if ((prio & 7) <= 3) {
 		snprintf(errlogs[log_errors % 32], LOGW, "%llu.%06llu %s", (unsigned long long) (now_us / 1000000ULL),
